@@ -4,6 +4,9 @@ ENTRY = {'coq_dir': 'C01',
  'coq_deps': ['C18', 'C02'],
  'cases': {'quick': 1500, 'thorough': 30000},
  'harness_timeout': 2400,
+ 'quick_streams': [('extra', '{V}/tools/c01_extra_streams.sh {seed} 200')],
+ 'thorough_streams': [('extra', '{V}/tools/c01_extra_streams.sh {seed} 6000')],
+ 'stream_timeout': 2400,
  'consts': ['C01_STATIC_KEY_DOMAIN_BE',
             'C01_STATIC_KEY_DOMAIN_LEN',
             'C01_TLS_SIGNING_PREFIX_BE',
@@ -46,23 +49,40 @@ ENTRY = {'coq_dir': 'C01',
          'the public API over TCP and over WebSocket, dialing the right or a wrong peer id (ConnectionEstablished / '
          'DialFailure(PeerIdMismatch); the listener reports nothing on a mismatch); (7) three-way key admission: every identity_key blob '
          'of stream (3) also goes through libp2p-identity 0.2.14 (PublicKey::try_decode_protobuf + to_peer_id): same verdict, same key, '
-         'same id required by the oracle; maximal handshake messages (65535 bytes) included. BY HAND (tools/c01_extra_streams.sh, crate '
-         "harness_c01x built with litep2p's quic+webrtc features; last run: 517 cases, 0 disagreements, 0 oracle failures): kind 7 the TLS "
-         'certificate checks of the QUIC transport (verify_server_cert with none/right/wrong expected peer, verify_client_cert) on '
-         "certificates generated by litep2p's own rcgen path with a crafted libp2p extension (valid, none, duplicate, malformed DER, "
+         'same id required by the oracle; maximal handshake messages (65535 bytes) included. (8) kind 9, the REAL TransportManager over a '
+         'scripted transport installed as TCP / WebSocket (/ QUIC in the extra stream): dial_address(../p2p/<dialed>), then the transport '
+         "reports ConnectionEstablished under the dial's connection id for the dialed peer or for another one, or an inbound connection: "
+         'does next() hand out ConnectionEstablished (after transport.accept) or is the connection refused (transport.reject; a debug '
+         'build stops at debug_assert!(false) first: both count as refused). The ed25519 / curve oracle tables are computed by an '
+         "INDEPENDENT implementation (libp2p-identity 0.2.14 calling ed25519-dalek), not through litep2p's crypto::ed25519, so a change to "
+         'PublicKey::try_from_bytes / verify does not move the oracle with it. EXTRA STREAM, run by ./check in BOTH tiers (props keys '
+         "quick_streams / thorough_streams -> tools/c01_extra_streams.sh; crate harness_c01x built with litep2p's quic+webrtc features "
+         "into C19's harness/target-c19x/target; 380 fixed and 200 / 6000 random cases, a few seconds): kind 7 the TLS certificate checks "
+         'of the QUIC transport (verify_server_cert with none/right/wrong expected peer, verify_client_cert) on certificates generated by '
+         "litep2p's own rcgen path with a crafted LIST of extensions in a chosen order (libp2p extension valid / none / malformed DER / "
          'signature by another identity / for another certificate key / without or with a wrong prefix, non-canonical key encodings, other '
-         'key types and lengths, small-order keys, bit flips, extra certificates in the chain); kind 8 the WebRTC Noise path on byte '
-         "vectors (NoiseContext::with_prologue, first_message, get_remote_peer_id; prologue from litep2p's noise_prologue) against a snow "
-         'responder whose prologue is computed from the same or from a differing fingerprint pair (bit flips, swapped, truncated), with '
-         "all forged-payload classes of stream (3). prop_ok is judged on the implementation's trace without the model's decoders: a side "
-         "reports peer P only if the ed25519 table has a `true` verdict for a key with id P over DOMAIN ++ this session's remote static "
-         'key with both key and signature occurring in the payload, and P equals the dialed peer if one was given; both ends connect only '
-         "if the bytes consumed by the handshakes are the bytes sent; any connected end names the other end's identity key. A case is "
-         'non-trivial when its trace has >= 40 numbers',
+         'key types and lengths, small-order keys, bit flips, extra certificates in the chain; other OIDs, critical or not, before / after '
+         '/ around it; two libp2p extensions in every combination of good / refused key / malformed so that the first offending extension '
+         'decides; random lists); kind 8 the WebRTC Noise path on byte vectors (NoiseContext::with_prologue, first_message, '
+         "get_remote_peer_id; prologue from litep2p's noise_prologue) against a snow responder whose prologue is computed from the same or "
+         'from a differing fingerprint pair (bit flips, swapped, truncated) or who uses no prologue / only the prefix, with all '
+         'forged-payload classes of stream (3); the reply handed to get_remote_peer_id also with a length prefix that does not match '
+         '(smaller but enough for the payload, one byte too small for the payload, 65535, 0), with a byte appended behind the message, or '
+         "cut to a single byte; kind 6 over QUIC: two complete Litep2p nodes, right / wrong peer id dialed ('Wrong peer ID in p2p "
+         "extension' arrives as the reason of a TLS transport error); kind 9 with the scripted transport installed as QUIC. A stream trace "
+         'that fails prop_ok yields STREAM-VIOLATION with a replay file (replays/C01-x-<seed>-<n>.case; the harness_c01x binary takes '
+         "--replay), a disagreement yields a replay of the first differing case. prop_ok is judged on the implementation's trace without "
+         "the model's decoders: a side reports peer P only if the ed25519 table has a `true` verdict for a key with id P over DOMAIN ++ "
+         "this session's remote static key with both key and signature occurring in the payload, and P equals the dialed peer if one was "
+         'given; both ends connect only if the bytes consumed by the handshakes are the bytes sent; any connected end names the other '
+         "end's identity key; a TLS identity is accepted only from a certificate with exactly one libp2p extension and no other critical "
+         'extension; the manager hands out a dialed connection only for the peer it dialed. A case is non-trivial when its trace has >= 40 '
+         'numbers',
  'trusted_base': ['signatures: `verify` and `on_curve` are arbitrary functions in the theorems; in runs they are tables of real '
-                  'ed25519-dalek / curve25519 results computed by the harness through the public ed25519 API. C01_binding additionally '
-                  "ASSUMES the single-message hypothesis (verify pk m sg = verify pk m' sg = true -> m = m'): this is the unforgeability "
-                  'idealisation, not a fact about ed25519 — it is false for small-order keys under non-strict verification '
+                  'ed25519-dalek / curve25519 results computed by the harness with libp2p-identity 0.2.14 (ed25519-dalek called directly, '
+                  "not through litep2p's crypto::ed25519; same non-strict verification). C01_binding additionally ASSUMES the "
+                  "single-message hypothesis (verify pk m sg = verify pk m' sg = true -> m = m'): this is the unforgeability idealisation, "
+                  'not a fact about ed25519 — it is false for small-order keys under non-strict verification '
                   '(C01_binding_needs_hypothesis; corpus w01, forgery 16)',
                   'Noise XX / the snow crate (0.9.6), ChaChaPoly, SHA-256, X25519 are not modelled byte for byte: the transcript layer is '
                   'symbolic (ciphertext = term tagged with key and handshake hash, decryption iff both agree, hash injective, no_forgery = '
@@ -81,34 +101,54 @@ ENTRY = {'coq_dir': 'C01',
                   "They are the definitions of `term`, `knows` and `valid`, not axioms; the attacker's DH secrets `asec` and compromised "
                   'identities `bad` are arbitrary Section variables',
                   'TLS caller: the X.509 layer (x509-parser, yasna, certificate validity, self-signature with ring, rustls invoking the '
-                  'verifier, TLS 1.3 CertificateVerify) is trusted; the model starts at "what the libp2p extension was found to be" and '
-                  'the SubjectPublicKeyInfo bytes. WebRTC caller: DTLS and the fingerprints handed to noise_prologue are trusted; litep2p '
-                  'has no WebRTC dial path (it only accepts), so there is no dialed-peer comparison there',
+                  "verifier, TLS 1.3 CertificateVerify) is trusted; the model starts at the certificate's list of extensions in order "
+                  '(each: libp2p OID with a SignedKey / libp2p OID not a SignedKey / another OID, critical or not) and the '
+                  'SubjectPublicKeyInfo bytes. WebRTC caller: DTLS and the fingerprints handed to noise_prologue are trusted; litep2p has '
+                  'no WebRTC dial path (it only accepts), so there is no dialed-peer comparison there',
                   'early data: composition with C02 is at the level of the two models (listener_app_bytes); that handshake() performs no '
                   'read-ahead and that a NoiseSocket exists only after acceptance is read from the code and tested by stream (5)',
                   'the reference for key admission is libp2p-identity 0.2.14 as linked into the harness (prost 0.14.4 generated decoder): '
                   'agreement is differential',
-                  'comparison sites read, not all run: TCP negotiate_connection (optional expectation taken from the /p2p part of the '
-                  'dialed address: run), WebSocket negotiate_connection (dialer always Some: run end to end), QUIC make_client_config(.., '
-                  'Some(peer)) -> verify_server_cert (run by hand through the hook), listeners of all three and WebRTC: no expectation'],
+                  'comparison sites: TCP negotiate_connection (optional expectation taken from the /p2p part of the dialed address: run, '
+                  'kinds 4-6), WebSocket negotiate_connection (dialer always Some: run end to end, kind 6), QUIC make_client_config(.., '
+                  'Some(peer)) -> verify_server_cert (run: kind 7 through the hook, kind 6 end to end over QUIC), '
+                  'TransportManager::on_connection_established (run: kind 9), listeners of all three and WebRTC: no expectation. READ, not '
+                  'run: that WebSocket / QUIC dial() and open() refuse an address without /p2p (AddressError::PeerIdMissing) and that TCP '
+                  'takes Option from TcpAddress::multiaddr_to_socket_address — dial_setup in the model; C01_every_dial_checked does not '
+                  "depend on it (the manager's comparison covers every case), and the manager itself only dials addresses carrying /p2p",
+                  'Dolev-Yao agreement theorems: the events NewD/NewL/Answered/AcceptD/AcceptL are bookkeeping of the model (what a '
+                  'session did), the prologue assignment `pro` is arbitrary; the listener reads message 3 only against the message 2 it '
+                  'wrote itself (v_L4 requires Answered), as handshake() does (one HandshakeState per call)'],
  'level_text': 'Proof (decision layer, all callers): for the executable model of what handshake()/negotiate_connection (TCP, WebSocket), '
                'certificate::parse + Libp2pCertificateVerifier (QUIC) and get_remote_peer_id (WebRTC) do with the identity material — '
                'prost decoding of payload and key blob, Ed25519 admission, signature over STATIC_KEY_DOMAIN ++ static key (Noise) or '
                'P2P_SIGNING_PREFIX ++ SPKI (TLS), id derivation from the decoded key, comparison with the dialed peer — acceptance is '
-               'characterised exactly (C01_accept_sound/_complete, C01_tls_accept_sound/_complete), every reason to refuse yields its '
-               'error (10 theorems), binding to the session static key / certificate key under the single-message hypothesis (shown '
-               'necessary), decoder fuel adequacy, honest payload accepted. Proof (Dolev-Yao layer, C01_dy_*): over ALL interleavings of '
-               'any number of honest dialer/listener sessions with an active attacker owning any DH secrets and any identity keys: whoever '
-               'completes believing in an uncompromised P holds a session key bound to a static key that P signed in one of its honest '
-               'sessions, the attacker never knows that key nor any session or identity secret, a dialer and a listener session with the '
-               "same key are each other's peers (static keys, agents), secrets have unique owners; the honest run is a valid trace. "
-               'Partial (linear transcript layer, *_partial and the three theorems built on it: C01_webrtc_prologue_binds, C01_xx_order, '
-               'C01_early_data): one dialer and one listener session, injective handshake hash, AEAD idealisation no_forgery: an accepting '
-               "side read exactly what its peer sent and reaches the decision layer's verdict on the peer's genuine payload/static key; "
-               'replaced message or differing prologue (WebRTC fingerprints) => refusal; the dialer finishes first, the listener only '
-               "after the dialer wrote message 3, message 2 is independent of the dialer's identity, message 3 is written before the "
-               "dialer's verdict; composed with C02: no early byte reaches the listener's application unless its handshake accepted, and "
-               'never anything of or after a non-authentic transport frame.',
+               "characterised exactly (C01_accept_sound/_complete, C01_tls_accept_sound/_complete: the TLS model walks the certificate's "
+               'extensions in order as parse_unverified does — exactly one libp2p extension among skipped ones; a critical unknown or a '
+               'second libp2p extension is never accepted), every reason to refuse yields its error (10 theorems), a key blob of another '
+               'type (RSA, Secp256k1, ECDSA, unknown) is never accepted on either path, binding to the session static key / certificate '
+               'key under the single-message hypothesis (shown necessary), decoder fuel adequacy, honest payload accepted. Every caller: '
+               'on EVERY transport a connection dialed through the manager is accepted only for the dialed peer and on authentic evidence '
+               '(C01_every_dial_checked: the transport compares, and where it does not — TCP with an address lacking /p2p — '
+               'TransportManager::on_connection_established does; C01_transport_and_manager_checks, C01_inbound_authentic). Framing: what '
+               'first_message / second_message write is read back exactly by read_handshake_message and nothing behind a frame is touched; '
+               "the listener's handshake consumes exactly its two frames (C01_handshake_framing, C01_honest_message_sizes). Proof "
+               '(Dolev-Yao layer, C01_dy_*): over ALL interleavings of any number of honest dialer/listener sessions, each with its own '
+               'prologue, with an active attacker owning any DH secrets and any identity keys: whoever completes believing in an '
+               'uncompromised P holds a session key bound to a static key that P signed in one of its honest sessions, the attacker never '
+               'knows that key nor any session or identity secret; AGREEMENT without any no-forgery hypothesis (derived from a '
+               'ciphertext-origin invariant): an accepting dialer received ephemeral and static key of ONE listener session of P, which '
+               "wrote message 2 in answer to this dialer's own ephemeral key under the SAME PROLOGUE (WebRTC fingerprints), the accepted "
+               'message 2 being that message component for component; an accepting listener talked to a dialer session of P that COMPLETED '
+               'accepting exactly this listener (agent and static key) with the very same session key and the same prologue; a dialer and '
+               "a listener session with the same key are each other's peers; secrets have unique owners; the honest run is a valid trace "
+               'whenever the two prologues agree. Partial (linear transcript layer, *_partial and the three theorems built on it: '
+               'C01_webrtc_prologue_binds, C01_xx_order, C01_early_data): one dialer and one listener session, injective handshake hash, '
+               'AEAD idealisation no_forgery: an accepting side read exactly what its peer sent, byte string for byte string, and reaches '
+               "the decision layer's verdict on the peer's genuine payload/static key; replaced message or differing prologue => refusal; "
+               "the dialer finishes first, the listener only after the dialer wrote message 3, message 2 is independent of the dialer's "
+               "identity, message 3 is written before the dialer's verdict; composed with C02: no early byte reaches the listener's "
+               'application unless its handshake accepted, and never anything of or after a non-authentic transport frame.',
  'level_note': 'Trusted: Coq kernel, ExtrOcamlBasic extraction, harness and hooks; ed25519, curve25519, snow, prost as stated in the '
                'trusted base. "Never yields a connection" means: never both ends, and never the end that reads a damaged message or '
                'anything after it — with the XX pattern the dialer returns from handshake() after WRITING message 3, so a damaged message '
@@ -117,20 +157,25 @@ ENTRY = {'coq_dir': 'C01',
                'the handshake (they are the first transport frame; C02). Observation, not counted as a violation: litep2p (like '
                'rust-libp2p) uses non-strict ed25519 verification, so the small-order keys 0100..00 / ecff..7f / 0000..00 authenticate '
                'with the fixed signature 0100..00||00..00 in every session without any secret; the resulting peer id is the hash of that '
-               'weak key, which no honest node owns. Not modelled: the WebRTC caller (get_remote_peer_id, same parse_and_verify_peer_id), '
-               'RSA keys, timeouts (the Timeout arm of handshake()), the WebSocket twin of the dialed-peer comparison (identical three '
-               'lines, read but not run). WHAT IS MISSING FROM THE *_partial THEOREMS: (a) they speak about the linear script (one session '
-               'pair); the Dolev-Yao theorems close the multi-session / interleaving gap for authentication, key secrecy and session '
-               'matching, but the byte-exact agreement ("every message untouched", prologue binding) is proved only in the linear layer; '
-               '(b) no_forgery is a hypothesis on the run there (a delivered ciphertext bound to a handshake hash its reader will use was '
-               "produced by the peer), whereas in the Dolev-Yao layer the attacker's inability is derived from the closure rules; (c) in "
-               'both layers the hash is collision-free and terms stand for bytes: that snow/ChaChaPoly/SHA-256/X25519 realise the symbolic '
-               'operations is tested, not proved; C01_transcript_hash_instance_partial is a complete theorem (it only shows the '
-               'injectivity hypothesis satisfiable). Further observations: (i) the dialer writes message 3 — its own identity, readable by '
-               "the holder of the static key it was given — before checking the listener's signature (C01_xx_order (iv)): a rogue listener "
-               "learns the dialer's identity even though it is then rejected; (ii) TCP takes the expectation from the /p2p part of the "
-               'dialed address (Option): an address without it would skip the comparison; the manager only dials addresses carrying /p2p '
-               '(dial_address refuses others; stored addresses: C10).',
+               'weak key, which no honest node owns. Not modelled: RSA keys (cargo feature off), timeouts (the Timeout arm of '
+               'handshake()), the X.509 / TLS 1.3 / DTLS layers, the byte-level split of a Noise message into its components (done in Glue '
+               'by fixed offsets, tested). Observation (harmless): the WebRTC caller get_remote_peer_id does not check its two-byte length '
+               'prefix against the reply — the prefix only sizes the output buffer and all bytes behind it go to snow; a wrong prefix that '
+               'still leaves room for the payload is accepted, anything appended breaks the last AEAD tag (run8 in Glue.v, tested by kind '
+               "8). In a debug build the manager's comparison stops at debug_assert!(false) before it rejects: kind 9 counts the panic as "
+               'a refusal (a release build calls transport.reject). WHAT IS MISSING FROM THE *_partial THEOREMS: (a) they speak about the '
+               'linear script (one session pair) at the level of byte strings; the Dolev-Yao theorems close the multi-session / '
+               'interleaving gap for authentication, key secrecy, session matching and now also for agreement on the transcript and on the '
+               'prologue (C01_dy_dialer_agreement, C01_dy_listener_agreement), at the level of terms; (b) no_forgery is a hypothesis on '
+               'the run there (a delivered ciphertext bound to a handshake hash its reader will use was produced by the peer), whereas in '
+               "the Dolev-Yao layer the attacker's inability is derived from the closure rules; (c) in both layers the hash is "
+               'collision-free and terms stand for bytes: that snow/ChaChaPoly/SHA-256/X25519 realise the symbolic operations is tested, '
+               'not proved; C01_transcript_hash_instance (formerly _partial) is a complete theorem: it shows the injectivity hypothesis '
+               'satisfiable. Further observations: (i) the dialer writes message 3 — its own identity, readable by the holder of the '
+               "static key it was given — before checking the listener's signature (C01_xx_order (iv)): a rogue listener learns the "
+               "dialer's identity even though it is then rejected; (ii) TCP takes the expectation from the /p2p part of the dialed address "
+               '(Option): an address without it would skip the comparison; the manager only dials addresses carrying /p2p (dial_address '
+               'refuses others; stored addresses: C10).',
  'assumptions': ['the single-message hypothesis on `verify` for C01_binding (unforgeability idealisation)',
                  'injective handshake hash and no_forgery (AEAD idealisation, attacker without the four DH secrets) for the *_partial '
                  'theorems',
